@@ -922,6 +922,44 @@ func c13Stability(x *engine.Ctx, base c13Base, h0 string, w0 *simfs.World) {
 	if !res.OK() || len(res.Plan) != 0 {
 		x.Violation("C13/unchanged-looks-changed crlf", fmt.Sprintf("base %q: identical configuration saved with CR LF line ends: plan %v (%v)", base.Name, res.PlanAliases(), res.Err()))
 	}
+	// in place: the hash line of the artifact moved away from the top of the file (a remark or a blank line in front
+	// of it, or behind the blocks): unchanged stays unchanged, and an edit is still seen
+	for _, place := range []string{"short-remark-in-front", "remark-in-front", "blank-line-in-front", "behind-the-blocks"} {
+		w = w0.Clone()
+		ap := ArtifactPath(base.Cfg.Path)
+		data := w.Files[ap].Data
+		nl := bytes.IndexByte(data, '\n')
+		if !bytes.HasPrefix(data, []byte("#HASH:")) || nl < 0 {
+			break
+		}
+		hashLine, rest := data[:nl+1], data[nl+1:]
+		var nd []byte
+		switch place {
+		case "short-remark-in-front":
+			nd = append(append([]byte("#ab\n"), hashLine...), rest...)
+		case "remark-in-front":
+			nd = append(append([]byte("# issued for the test hierarchy, keep with its key\n"), hashLine...), rest...)
+		case "blank-line-in-front":
+			nd = append(append([]byte("\n"), hashLine...), rest...)
+		case "behind-the-blocks":
+			nd = append(append([]byte{}, rest...), hashLine...)
+		}
+		w.PutAt(ap, nd, w.Files[ap].Tick)
+		res = drive.Run(w, drive.Changed, nil)
+		x.Transition(1)
+		if !res.OK() || len(res.Plan) != 0 {
+			x.Violation("C13/unchanged-looks-changed hash-line-"+place, fmt.Sprintf("base %q: the artifact's hash line moved (%s), configuration unchanged: plan %v (%v)", base.Name, place, res.PlanAliases(), res.Err()))
+			continue
+		}
+		eb := c13Clone(base)
+		eb.Cfg.Subject = "CN=Entity edited, O=Org"
+		w.Put(eb.Cfg.Path, RenderCfg(eb.Cfg.Path, eb.Cfg.Tree()))
+		res = drive.Run(w, drive.Changed, nil)
+		x.Transition(1)
+		if !res.OK() || !res.Planned(AliasOf(eb.Cfg)) {
+			x.Violation("C13/hash-blind hash-line-"+place, fmt.Sprintf("base %q: the artifact's hash line moved (%s), subject edited: a generate-changed run plans %v (%v)", base.Name, place, res.PlanAliases(), res.Err()))
+		}
+	}
 	// in place: profile renamed consistently
 	if base.Prof != nil {
 		b := c13Clone(base)
@@ -948,7 +986,7 @@ func init() {
 	register(&engine.Check{
 		ID:          "C13",
 		Level:       "model_checking",
-		Rule:        fmt.Sprintf("%d base configurations (baseline, root, each optional field, 5 validity shapes, every extension kind with content, raw bodies, an extension list, manipulations; the same under a profile carrying validity and extensions) x (A) stability: re-read at another time and (for validities without from) on another calendar day simulated by a 26-hour shift of the local zone, as x.yaml / sub/dir/y.yml / z.JSON (JSON rendering), with the whole directory under doubly dotted names (pki.v1/<name>.v2.yaml), under two aliases, under a renamed profile -> identical #HASH line; in place: a later generate-changed run, a re-rendered identical configuration with comments and a consistently renamed profile plan nothing; (B) sensitivity: each of %d single-field edits (set, unset, change of every certificate and profile field; extensions: change kind keeping the raw body, flip critical, change content, reorder, insert, delete, optional/override flips) - relevant iff the reference certificate model changes - must change the hash of a fresh run and make a generate-changed run regenerate the entity in place; all edit pairs on three bases (quick) / on every base (thorough). states = distinct (base, edit) worlds, transitions = in-place runs", len(bases), len(c13Edits())),
+		Rule:        fmt.Sprintf("%d base configurations (baseline, root, each optional field, 5 validity shapes, every extension kind with content, raw bodies, an extension list, manipulations; the same under a profile carrying validity and extensions) x (A) stability: re-read at another time and (for validities without from) on another calendar day simulated by a 26-hour shift of the local zone, as x.yaml / sub/dir/y.yml / z.JSON (JSON rendering), with the whole directory under doubly dotted names (pki.v1/<name>.v2.yaml), under two aliases, under a renamed profile -> identical #HASH line; in place: a later generate-changed run, a re-rendered identical configuration with comments and a consistently renamed profile plan nothing; with the artifact's hash line moved behind a remark, a blank line or the blocks an unchanged configuration plans nothing and an edited subject is seen; (B) sensitivity: each of %d single-field edits (set, unset, change of every certificate and profile field; extensions: change kind keeping the raw body, flip critical, change content, reorder, insert, delete, optional/override flips) - relevant iff the reference certificate model changes - must change the hash of a fresh run and make a generate-changed run regenerate the entity in place; all edit pairs on three bases (quick) / on every base (thorough). states = distinct (base, edit) worlds, transitions = in-place runs", len(bases), len(c13Edits())),
 		Bound:       map[string]string{"edits": "single on every base; pairs on 3 bases (quick) / all bases (thorough)"},
 		Assumptions: []string{"hash equality is demanded only for the four dimensions the statement lists (time, file name, own alias, profile name)", "edits between an omitted algorithm and its default are not used (documentation names two defaults)"},
 		Budget:      budgets(quickBudget, thoroughBudget),
